@@ -82,27 +82,27 @@ type dpor struct {
 }
 
 type dChooser struct {
-	d        *dpor
-	pos      int // index into d.stack of the next point
-	usedF    int
-	events   []dEvent
-	proc     []vclock // by G.Index
-	known    int
-	objs     map[*uint64]*objClk
-	all      vclock
-	lastGlob vclock
-	sleep    []sleepEntry
-	epoch    int
-	blocked  bool
-	err      string
-	pendFin  bool // last event awaits partner information
-	newTr    int
-	idx      map[uint64]int // idh -> G.Index
+	d          *dpor
+	pos        int // index into d.stack of the next point
+	usedF      int
+	events     []dEvent
+	proc       []vclock // by G.Index
+	known      int
+	objs       map[*uint64]*objClk
+	all        vclock
+	lastGlob   vclock
+	sleep      []sleepEntry
+	epoch      int
+	blocked    bool
+	err        string
+	pendFin    bool // last event awaits partner information
+	newTr      int
+	idx        map[uint64]int // idh -> G.Index
 	firstNewEv int
-	procEv   [][]int      // by G.Index: indices of the events the process took part in
-	gs       []*vs.G
-	lastCp   vclock       // clock of the moving process before the last event
-	fpSnap   []sleepEntry // footprints of all pending operations before the last transition, by G.Index
+	procEv     [][]int // by G.Index: indices of the events the process took part in
+	gs         []*vs.G
+	lastCp     vclock       // clock of the moving process before the last event
+	fpSnap     []sleepEntry // footprints of all pending operations before the last transition, by G.Index
 }
 
 func (c *dChooser) fail(format string, a ...any) int {
